@@ -27,13 +27,23 @@ def withheld_split(x):
         return False
     return len({bool(e.get("ret")) for e in outs}) > 1
 
+def stopper_fails(x):
+    """a party stopped part-way (role 4) in a key generation and an honest party failed it"""
+    r0 = x[0]
+    if r0.get("proto") not in ("dkg", "dss", "nts") or 4 not in r0["role"]:
+        return False
+    return any(e.get("e") == "Out" and e.get("role") == 0 and e.get("ret") is False for e in x)
+
+K7_TRIGGER = {"cut_after": [-1, 160, -1, -1], "gi": 0, "grp": [2063, 1031, 121, 964], "n": 4, "proto": "dkg", "rnd": True,
+              "role": [0, 4, 0, 0], "seed": 13316, "t": 1, "tamper": [-1, -1], "trbc": 1}
 K1_TRIGGER = {"cut_after": [-1, -1, -1, -1], "gi": 2, "grp": [46327, 1103, 39443, 18015], "n": 4, "proto": "dss", "rnd": True,
               "role": [0, 0, 0, 1], "seed": 4197, "t": 1, "tamper": [-1, -1], "trbc": 1}
 K4_TRIGGER = {"cut_after": [-1, 42, -1, -1], "gi": 2, "grp": [46327, 1103, 24792, 21861], "n": 4, "proto": "vss", "rnd": False,
               "role": [0, 4, 0, 0], "seed": 5012, "t": 1, "tamper": [-1, -1], "trbc": 1}
 FINDINGS = {
     "C15": [("cgjkr-dkg-party-erased-from-qual-after-sharing-of-x", "KnownErase", K1_TRIGGER, erased),
-            ("vss-dealer-stops-dealing-splits-honest-parties", "KnownWithheld", K4_TRIGGER, withheld_split)],
+            ("vss-dealer-stops-dealing-splits-honest-parties", "KnownWithheld", K4_TRIGGER, withheld_split),
+            ("keygen-party-stops-midway-honest-party-fails", "KnownStop", K7_TRIGGER, stopper_fails)],
     "C16": [("cgjkr-dss-signature-under-inconsistent-key", "KnownErase", K1_TRIGGER, erased_bad_signature)],
 }
 
@@ -45,7 +55,7 @@ def listed(pid, key=None):
 
 def trace_cfg(pid):
     """the configuration of DKGTrace.tla for this property: a deviation is tolerated only while its finding is listed"""
-    consts = {"KnownErase": False, "KnownGJKR": False, "KnownWithheld": False}
+    consts = {"KnownErase": False, "KnownGJKR": False, "KnownWithheld": False, "KnownStop": False, "KeygenStrict": pid == "C15"}
     for key, const, _, _ in FINDINGS[pid]:
         if listed(pid, key):
             consts[const] = True
